@@ -26,7 +26,7 @@ CONSTANTS Size,            \* Size[a]: bytes a combined member adds to its batch
           ProgChoices,     \* set of tuples: one program (sequence of ops [k, as]) per writer thread
           CountLimit, SizeLimit, NoSync,
           MaxFaults,       \* system calls that may fail in one behaviour
-          FaultCalls,      \* classes that may fail: subset of {"open","write","link","sync","close","rename","unlink"}
+          FaultCalls,      \* classes that may fail: subset of {"open","write","short","link","sync","close","rename","unlink"}
           CrashOn,         \* BOOLEAN: process crash enabled
           BugPrecedence, BugLockLeak
 
@@ -189,6 +189,12 @@ Writev(x, a, okpc, failpc) ==
      /\ after' = [after EXCEPT ![x] = failpc]
      /\ pc' = [pc EXCEPT ![x] = "is1"]
      /\ UNCHANGED ino
+  \/ /\ CanFail("short") /\ Fault                       \* short writev: a torn record stays in the file, "incomplete write"
+     /\ ino' = WriteFS(ino, fdt, bat[b].fd, Chunk("mem", a, FALSE))
+     /\ bat' = [bat EXCEPT ![b].err = TRUE, ![b].faulted = TRUE]
+     /\ hit' = [hit EXCEPT ![x] = TRUE] /\ werr' = [werr EXCEPT ![x] = TRUE]
+     /\ after' = [after EXCEPT ![x] = failpc]
+     /\ pc' = [pc EXCEPT ![x] = "is1"]
 Linkat(x, a, okpc, failpc) ==
   LET b == mybat[x] IN
   \/ /\ dir' = IF dir[Obj(a)] # 0 THEN dir ELSE LinkFS(dir, fdt, bat[b].fd, Obj(a))     \* EEXIST is success
@@ -281,6 +287,10 @@ F2(t) ==
         /\ hit' = [hit EXCEPT ![t] = TRUE] /\ werr' = [werr EXCEPT ![t] = TRUE]
         /\ pc' = [pc EXCEPT ![t] = "f4"]
         /\ UNCHANGED ino
+     \/ /\ CanFail("short") /\ Fault                    \* "incomplete unix write": never linked
+        /\ ino' = WriteFS(ino, fdt, myfd[t], Chunk("raw", A1(t), FALSE))
+        /\ hit' = [hit EXCEPT ![t] = TRUE] /\ werr' = [werr EXCEPT ![t] = TRUE]
+        /\ pc' = [pc EXCEPT ![t] = "f4"]
   /\ UNCHANGED <<dir, fdt, progs, opi, myfd, mybat, cerr, after, idx, wvars, res, acked, panic, dblClose, crashed>>
 F3(t) ==
   /\ pc[t] = "f3"
@@ -333,6 +343,10 @@ G2(t) ==
         /\ fdt' = CloseFS(fdt, myfd[t])
         /\ \E keep \in BOOLEAN : GFail(t, keep)
         /\ UNCHANGED ino
+     \/ /\ CanFail("short") /\ Fault                    \* io.ErrShortWrite: the torn temporary file stays behind
+        /\ ino' = WriteFS(ino, fdt, myfd[t], Chunk("raw", A1(t), FALSE))
+        /\ fdt' = CloseFS(fdt, myfd[t])
+        /\ \E keep \in BOOLEAN : GFail(t, keep)
   /\ UNCHANGED <<progs, opi, myfd, mybat, werr, cerr, after, idx, wvars, acked, panic, dblClose, crashed>>
 G3(t) ==
   /\ pc[t] = "g3"
